@@ -397,6 +397,13 @@ func (s *session) bytesFor(st Step, id int) ([]byte, string) {
 		case "random":
 			hs = append(hs, &wire.BlockHeader{Version: 1, PrevBlock: *fixture[5].BlockHash(), Timestamp: 1600000000, Bits: 0x1d00ffff, Nonce: uint32(id)})
 		case "empty":
+		case "known": // a header the repository already holds (shared by every fork: proves nothing)
+			// (the genesis header: offered again in tracking mode it is refused - its parent is
+			// looked up before the duplicate check - so it is not an "accepted" header either)
+			if h, err := s.repo.Header(coqfmt.QuietContext(), 0); err == nil {
+				hs = append(hs, h)
+			}
+			allOK = false
 		case "extend": // headers that extend what the repository holds
 			prev := s.repo.LastHash()
 			t := s.repo.LastTime()
@@ -614,9 +621,28 @@ func worker(path string) {
 		send("verack", "", 0)
 		s.waitFor("getheaders", time.Second)
 	}
-	if c.Stage == "ready" {
+	if c.Stage == "ready" || c.Stage == "blockreq" {
 		send("headers", "bsv", 1)
 		s.waitFor("sendheaders", time.Second)
+	}
+	if c.Stage == "blockreq" && len(c.Ops) > 0 {
+		// the block whose header opens the peer's bytes has been requested from this node
+		if raw, _ := hex.DecodeString(c.Ops[0].Raw); len(raw) >= 24+80 {
+			off := 24
+			if string(bytes.TrimRight(raw[4:16], "\x00")) == "extmsg" && len(raw) >= 44+80 {
+				off = 44
+			}
+			h := &wire.BlockHeader{}
+			if err := h.Deserialize(bytes.NewReader(raw[off : off+80])); err == nil {
+				s.node.RequestBlock(coqfmt.QuietContext(), *h.BlockHash(),
+					func(ctx context.Context, hd *wire.BlockHeader, n uint64, txs <-chan *wire.MsgTx) error {
+						for range txs {
+						}
+						return nil
+					}, func(context.Context) {})
+				s.waitFor("getdata", time.Second)
+			}
+		}
 	}
 	for _, st := range c.Ops {
 		raw, _ := hex.DecodeString(st.Raw)
@@ -649,7 +675,37 @@ func genBytes(r *coqfmt.Rand, id int) Case {
 		return b
 	}
 	var raw []byte
-	switch r.Pick(3, 2, 2, 2, 2, 2, 2, 2, 2, 2, 4) {
+	switch r.Pick(3, 2, 2, 2, 2, 2, 2, 2, 2, 2, 4, 2) {
+	case 11: // the requested block arrives: complete, cut short, or with a transaction that does not decode
+		c.Stage = "blockreq"
+		h := &wire.BlockHeader{Version: 1, PrevBlock: *fixture[3].BlockHash(), Timestamp: 1600000000, Bits: 0x1d00ffff, Nonce: uint32(id)}
+		var p bytes.Buffer
+		h.Serialize(&p)
+		n := 1 + r.Intn(3)
+		p.WriteByte(byte(n))
+		for i := 0; i < n; i++ {
+			mkTx(uint32(id*10+i), 1+r.Intn(3)).Serialize(&p)
+		}
+		body := p.Bytes()
+		switch r.Intn(4) {
+		case 0: // complete
+			raw = frame("block", body)
+		case 1: // the stream ends inside a transaction (the frame declares the full length)
+			raw = frame("block", body)
+			raw = raw[:len(raw)-1-r.Intn(20)]
+		case 2: // a transaction declares 2^64-1 inputs
+			bad := append([]byte{}, body[:81]...)
+			bad = append(bad, []byte{1, 0, 0, 0, 0xff, 0xff, 0xff, 0xff, 0xff, 0xff, 0xff, 0xff, 0xff}...)
+			bad = append(bad, bytes.Repeat([]byte{9}, 40)...)
+			raw = frame("block", bad)
+		default: // more transactions announced than follow, then the next message
+			bad := append([]byte{}, body...)
+			bad[80] = byte(n + 2)
+			raw = append(frame("block", bad), frame("ping", make([]byte, 8))...)
+		}
+		if r.Chance(1, 4) {
+			raw = append(raw, frame("ping", make([]byte, 8))...)
+		}
 	case 10: // well-formed frames, unmodified (the node state decides what they meet)
 		for i := 0; i <= r.Intn(3); i++ {
 			raw = append(raw, valid()...)
@@ -814,7 +870,7 @@ func genSession(r *coqfmt.Rand, id int, profile string) Case {
 			}
 			switch k {
 			case 0:
-				st.Cmd, st.Variant = "headers", []string{"bsv", "bch", "random", "empty"}[r.Intn(4)]
+				st.Cmd, st.Variant = "headers", []string{"bsv", "bch", "random", "empty", "known"}[r.Intn(5)]
 			case 1:
 				st.Cmd = "addr"
 			case 2:
@@ -887,7 +943,7 @@ func genSession(r *coqfmt.Rand, id int, profile string) Case {
 	}
 	noise(r.Intn(3))
 	// verification reply
-	reply := []string{"bsv", "bsv", "bsv", "bch", "random", "empty"}[r.Intn(6)]
+	reply := []string{"bsv", "bsv", "bsv", "bch", "random", "empty", "known"}[r.Intn(7)]
 	if profile == "C14" {
 		reply = "bsv"
 		c.VerifyOnly = false
